@@ -248,12 +248,17 @@ CLAIMS = {
             "Time / Scope Time advance only over ticks that began in state Running, Run Time only while a run is active "
             "(block/scope clauses skip ticks with a scope change).",
             "Trusted: virtual time (engine.tick called directly, NullTimer), instrumented UOD + recording hardware, node-flag recorder; requests are applied between ticks. The RunState behaviours are input schedules, the verdict is the monitor's named clauses on the observed state. One-directional clauses (never require an advance).", "6.1, 7 C07"),
-    "C08": (MC, "RunState.tla SafeWhenIdle / SafeWhilePaused (TLC) + monitor clauses on the recording hardware of the same runs",
+    "C08": (MC, "RunState.tla SafeWhenIdle / SafeWhilePaused (TLC) + monitor clauses on the recording hardware of the same runs + "
+                "CmdMgr.tla (output tag, captured pre-pause value and hardware register modelled; SafeWhenNoRun holds, SafeWhilePaused "
+                "is violated by the model exactly as by the code - the recorded finding - and the check asserts that) in lock-step "
+                "with the real engine: Out1 and the hardware register are compared after every tick",
             "The device memory starts dirty; at every tick boundary: safe before the first run, safe after every Stop/Restart "
             "stop phase, safe throughout pauses (site-named: pause / error-pause / command-keeps-writing), no unsafe write while "
             "no run is active.",
             "Trusted: virtual time (engine.tick called directly, NullTimer), instrumented UOD + recording hardware, node-flag recorder; requests are applied between ticks. The RunState behaviours are input schedules, the verdict is the monitor's named clauses on the observed state. 'Unless the user commands that output during the pause' cannot occur in the harness.", "6.1, 7 C08"),
-    "C09": (MC, "RunState.tla UnpauseRestoresLastPause / PrevNeverCrossesRuns (TLC) + monitor clause C09.unpause-restores on the runs",
+    "C09": (MC, "RunState.tla UnpauseRestoresLastPause / PrevNeverCrossesRuns (TLC) + monitor clause C09.unpause-restores on the runs "
+                "+ CmdMgr.tla in lock-step: the value captured by Pause (Engine._prev_state) and the restored output are compared "
+                "with the model after every tick",
             "Runs with user, method, timed and error pauses, double Pause requests, output changes between them, several runs per "
             "schedule: at the tick in which a pause ends the output tag equals the value at the last unpaused tick boundary of "
             "the same run (skipped when a writing command executed in the pause/unpause tick).",
